@@ -198,6 +198,33 @@ def _mentions(v, op):
     return False
 
 
+_ESCAPING_CODECS = ("backslashreplace", "unicode_escape", "unicode-escape", "raw_unicode_escape", "string_escape", "xmlcharrefreplace", "namereplace")
+
+
+def _pre_escaped(v):
+    """Does the text come from a routine that has already written escape sequences into it?"""
+    if isinstance(v, StrOp):
+        if v.op in ("repr", "ascii"):
+            return v.op + "()"
+        if v.op in ("decode", "encode"):
+            for a in v.args[1:]:
+                t = a if isinstance(a, str) else (a.value if isinstance(a, Cst) else None)
+                if isinstance(t, str) and t.lower() in _ESCAPING_CODECS:
+                    return f".{v.op}(..., {t!r})"
+        for a in v.args:
+            if not isinstance(a, (str, int, type(None))):
+                h = _pre_escaped(a)
+                if h:
+                    return h
+    elif isinstance(v, Str):
+        for x in v.parts:
+            if not isinstance(x, str):
+                h = _pre_escaped(x)
+                if h:
+                    return h
+    return None
+
+
 def _double_escape(v):
     if isinstance(v, StrOp):
         if v.op == "replace" and len(v.args) == 3:
@@ -253,6 +280,19 @@ def rule_r2(ctx):
                 f"{fi.where()}: `{render(p.result)[:90]}` escapes (inserts a backslash into) the output of repr()/ascii(), which is already escaped: a quote that repr() wrote as \\' becomes \\\\' and ends the literal early (bytes containing both quote characters) [{short_ctx(p, 80)}]",
                 where=fi.where(), what="double-escape",
             )
+    # ... including through the repository's own escaper
+    escaper = U.mi.functions.get("get_unescaped_str")
+    for p in paths:
+        for fq, args, site in getattr(p, "text_calls", []):
+            if escaper is not None and fq == escaper.fq and args:
+                src = _pre_escaped(args[0])
+                if src:
+                    rr.instances += 1
+                    rr.fail(
+                        "C04-R2|Constant|double-escape",
+                        f"{fi.where()}: the escaper {escaper.name} is applied to text produced by {src}, which already contains escape sequences: every backslash it wrote is escaped again (b'\\xff' is emitted as b'\\\\xff', four different bytes) [{short_ctx(p, 80)}]",
+                        where=fi.where(), what="double-escape",
+                    )
     # generic repr path(s)
     other = [p for p in paths if p not in str_paths]
     float_handled = False
@@ -395,6 +435,19 @@ def rule_r3(ctx):
             rr.fail("C04-R3|JoinedStr|escape-order", "brace doubling is applied before escaping", what=what)
         else:
             rr.ok(what, sample={"rule": "C04-R3", "literal_part": "escape, then {->{{ and }->}}"})
+    # the literal parts are brace-doubled on every path, so every path must emit an f-string
+    # (in a plain literal `{{` is two characters)
+    rr.instances += 1
+    what = "JoinedStr|prefix"
+    noprefix = [p for p in jpaths if not render(p.result).startswith("f")]
+    if noprefix:
+        rr.fail(
+            "C04-R3|JoinedStr|no-f-prefix",
+            f"{U.gen_map['JoinedStr'].where()}: on some path a JoinedStr is rendered without the `f` prefix (`{render(noprefix[0].result)[:60]}`) although its literal parts have their braces doubled: `f'{{{{}}}}'` (the text `{{}}`) becomes the plain literal `'{{{{}}}}'` [{short_ctx(noprefix[0], 80)}]",
+            where=U.gen_map["JoinedStr"].where(), what=what,
+        )
+    else:
+        rr.ok(what, sample={"rule": "C04-R3", "prefix": "f on every path", "paths": len(jpaths)})
     return rr
 
 
